@@ -42,7 +42,10 @@ func scalarOf(r *rand.Rand, k model.Kind) model.Value { return RandScalar(r, k) 
 func fieldGens() []fieldGen {
 	iv := func(r *rand.Rand) int64 { return RandScalar(r, model.KInt).I }
 	return []fieldGen{
-		{"int", reflect.TypeOf(int(0)), true, func(r *rand.Rand) (reflect.Value, model.Value) { v := iv(r); return reflect.ValueOf(int(v)), model.Int(v) }},
+		{"int", reflect.TypeOf(int(0)), true, func(r *rand.Rand) (reflect.Value, model.Value) {
+			v := iv(r)
+			return reflect.ValueOf(int(v)), model.Int(v)
+		}},
 		{"int64", reflect.TypeOf(int64(0)), true, func(r *rand.Rand) (reflect.Value, model.Value) { v := iv(r); return reflect.ValueOf(v), model.Int(v) }},
 		{"float64", reflect.TypeOf(float64(0)), true, func(r *rand.Rand) (reflect.Value, model.Value) {
 			v := RandScalar(r, model.KFloat).F
@@ -56,7 +59,10 @@ func fieldGens() []fieldGen {
 			v := StrPool[r.Intn(len(StrPool))]
 			return reflect.ValueOf(v), model.Str(v)
 		}},
-		{"bool", reflect.TypeOf(true), true, func(r *rand.Rand) (reflect.Value, model.Value) { v := r.Intn(2) == 0; return reflect.ValueOf(v), model.Bool(v) }},
+		{"bool", reflect.TypeOf(true), true, func(r *rand.Rand) (reflect.Value, model.Value) {
+			v := r.Intn(2) == 0
+			return reflect.ValueOf(v), model.Bool(v)
+		}},
 		{"time.Time", reflect.TypeOf(time.Time{}), true, func(r *rand.Rand) (reflect.Value, model.Value) {
 			s := int64(r.Intn(2000000000)) - 100000
 			return reflect.ValueOf(time.Unix(s, int64(r.Intn(1000)))), model.Int(s)
@@ -171,12 +177,22 @@ func fieldGens() []fieldGen {
 			return reflect.ValueOf(mp), model.Value{K: model.KHash, H: ents}
 		}},
 		// kinds the engine cannot represent: null or an error, never a wrong value or a crash
-		{"uint", reflect.TypeOf(uint(0)), false, func(r *rand.Rand) (reflect.Value, model.Value) { return reflect.ValueOf(uint(r.Intn(100))), model.Null() }},
-		{"uint8", reflect.TypeOf(uint8(0)), false, func(r *rand.Rand) (reflect.Value, model.Value) { return reflect.ValueOf(uint8(r.Intn(100))), model.Null() }},
+		{"uint", reflect.TypeOf(uint(0)), false, func(r *rand.Rand) (reflect.Value, model.Value) {
+			return reflect.ValueOf(uint(r.Intn(100))), model.Null()
+		}},
+		{"uint8", reflect.TypeOf(uint8(0)), false, func(r *rand.Rand) (reflect.Value, model.Value) {
+			return reflect.ValueOf(uint8(r.Intn(100))), model.Null()
+		}},
 		{"uint64", reflect.TypeOf(uint64(0)), false, func(r *rand.Rand) (reflect.Value, model.Value) { return reflect.ValueOf(uint64(1) << 63), model.Null() }},
-		{"int8", reflect.TypeOf(int8(0)), false, func(r *rand.Rand) (reflect.Value, model.Value) { return reflect.ValueOf(int8(r.Intn(100))), model.Null() }},
-		{"int16", reflect.TypeOf(int16(0)), false, func(r *rand.Rand) (reflect.Value, model.Value) { return reflect.ValueOf(int16(r.Intn(100))), model.Null() }},
-		{"int32", reflect.TypeOf(int32(0)), false, func(r *rand.Rand) (reflect.Value, model.Value) { return reflect.ValueOf(int32(r.Intn(100))), model.Null() }},
+		{"int8", reflect.TypeOf(int8(0)), false, func(r *rand.Rand) (reflect.Value, model.Value) {
+			return reflect.ValueOf(int8(r.Intn(100))), model.Null()
+		}},
+		{"int16", reflect.TypeOf(int16(0)), false, func(r *rand.Rand) (reflect.Value, model.Value) {
+			return reflect.ValueOf(int16(r.Intn(100))), model.Null()
+		}},
+		{"int32", reflect.TypeOf(int32(0)), false, func(r *rand.Rand) (reflect.Value, model.Value) {
+			return reflect.ValueOf(int32(r.Intn(100))), model.Null()
+		}},
 		{"complex128", reflect.TypeOf(complex128(0)), false, func(r *rand.Rand) (reflect.Value, model.Value) { return reflect.ValueOf(complex(1, 2)), model.Null() }},
 		{"*int", reflect.TypeOf((*int)(nil)), false, func(r *rand.Rand) (reflect.Value, model.Value) {
 			if r.Intn(2) == 0 {
